@@ -179,7 +179,10 @@ class Op(metaclass=OpMeta):
             try:
                 trace, _TRACE = _TRACE, None
                 result = fn(*args, **kwargs)
-                trace.setdefault(id(result), (result, self, raw_args))
+                # Record keyword arguments positionally so that replaying the
+                # traced op does not silently drop them.
+                traced_args = raw_args if len(args) == len(raw_args) or kwargs else args
+                trace.setdefault(id(result), (result, self, traced_args))
             finally:
                 _TRACE = trace
 
